@@ -961,8 +961,8 @@ func c16Implied(ctx *Ctx, b []byte, tree *mpItem) {
 // ---- decoder on item trees that Marshal does not produce ------------------------
 
 func c16StringsNormal(it *mpItem) bool {
-	if it.kind == "str" && !norm.NFC.IsNormal(it.s) {
-		return false
+	if (it.kind == "str" || it.kind == "bin") && utf8.Valid(it.s) && !norm.NFC.IsNormal(it.s) {
+		return false // the decoder normalises what it takes as a string; the driver runs with norm = id
 	}
 	for _, x := range it.xs {
 		if !c16StringsNormal(x) {
